@@ -390,12 +390,12 @@ func ruleStop(c *Ctx) {
 			if k, ok := isMutexCall(in); ok {
 				return []Ev{{Kind: k}}
 			}
-			if st, ok := isStoreTo(in, fStopping); ok {
+			if st, ok := isStoreToT(t, fr, in, fStopping); ok {
 				if b, ok := constBool(st.Val); ok {
 					return []Ev{{Kind: fmt.Sprintf("stopping=%v", b)}}
 				}
 			}
-			if st, ok := isStoreTo(in, fStop); ok && isNilConst(st.Val) {
+			if st, ok := isStoreToT(t, fr, in, fStop); ok && isNilConst(st.Val) {
 				return []Ev{{Kind: "stop=nil"}}
 			}
 			if s, ok := in.(*ssa.Send); ok {
@@ -529,7 +529,7 @@ func ruleStop(c *Ctx) {
 					}
 				}
 			}
-			if st, ok := isStoreTo(in, fStarted); ok {
+			if st, ok := isStoreToT(t, fr, in, fStarted); ok {
 				if b, ok := constBool(st.Val); ok && !b {
 					return []Ev{{Kind: "started=false"}}
 				}
@@ -661,7 +661,7 @@ func ruleDispose(c *Ctx) {
 			if k, ok := isMutexCall(in); ok {
 				return []Ev{{Kind: k}}
 			}
-			if st, ok := isStoreTo(in, fDisp); ok {
+			if st, ok := isStoreToT(t, fr, in, fDisp); ok {
 				if b, ok := constBool(st.Val); ok && b {
 					return []Ev{{Kind: "disposing=true"}}
 				}
@@ -768,12 +768,12 @@ func ruleDispose(c *Ctx) {
 		rsUnsub := p.Method("rescache.ResourceSubscription.Unsubscribe")
 		sp := &Spec{}
 		sp.Classify = func(t *Tracer, fr *Frame, in ssa.Instruction) []Ev {
-			if st, ok := isStoreTo(in, fState); ok {
+			if st, ok := isStoreToT(t, fr, in, fState); ok {
 				if k, ok := constInt(st.Val); ok && k == 0 {
 					return []Ev{{Kind: "state=disposed"}}
 				}
 			}
-			if st, ok := isStoreTo(in, fRS); ok && isNilConst(st.Val) {
+			if st, ok := isStoreToT(t, fr, in, fRS); ok && isNilConst(st.Val) {
 				return []Ev{{Kind: "resourceSub=nil"}}
 			}
 			if _, ok := isCallTo(in, unsubRefs); ok {
